@@ -3,6 +3,7 @@ import EaselModel.Dsqdata.Codec
 import EaselModel.Dsqdata.Loader
 import EaselModel.WorkQueue.Model
 import EaselModel.Threads.Model
+import EaselModel.Pipeline.Model
 /-! Line-protocol driver for the C12 models: dsqdata codec, loader arithmetic (through `dsqrt`), work queue
     (sequential differential ops `wq …`, and `wqtrace`: validation of an observed multi-threaded trace). -/
 open EaselModel EaselModel.Proto EaselModel.Dsqdata EaselModel.WorkQueue
@@ -194,6 +195,96 @@ def thValidate (evs : List String) : String := Id.run do
     | _ => return s!"bad-event i={i}"
   return s!"ok steps={i}"
 
+/-! ### dsqdata pipeline: validation of an observed trace
+Records (appended while the region's mutex is held, so the log is a linearisation):
+  `A/i/u/ph/end/buf/i0/eod`              inbox[u] region by the loader (A = L) or unpacker u (A = U)
+  `A/o/u/ph/end/buf/i0/eod/nchunk/tid`   outbox[u] region by unpacker u (U) or by a consumer inside Read (C)
+  `A/r/0/ph/end/stack/tid`               recycling region by the loader (L) or a consumer inside Recycle (C)
+Only the fields protected by the region's mutex are compared. -/
+
+def intOf (s : String) : Int := s.toInt?.getD (-2)
+
+def chunkStr (i0s : List Nat) (c : Option Pipeline.Chunk) : String :=
+  match c with
+  | some (b, k) => s!"{b}/{(i0s.getD k 0)}"
+  | none => "-1/-1"
+
+def bstr (b : Bool) : String := if b then "1" else "0"
+
+partial def loaderLocals (s : Pipeline.Sys) : Pipeline.Sys :=
+  if Pipeline.loaderLocal s then
+    match Pipeline.stepLoader s with
+    | some s' => loaderLocals s'
+    | none => s
+  else s
+
+def pipeCheck (s : Pipeline.Sys) : Option String :=
+  if s.returned != List.range s.nchunk then some "returned-not-0..nchunk-1"
+  else if !s.eofs.isEmpty && s.nchunk != s.T then some "eof-before-all-chunks-returned"
+  else if s.nextBuf != s.nalloc + s.freed then some "buffer-accounting"
+  else none
+
+def pipeValidate (U C T : Nat) (i0s : List Nat) (evs : List String) : String := Id.run do
+  -- The number of chunk buffers the loader allows itself is a tuning constant, not part of the property: the model is
+  -- parametric in `limit`, and the validator learns it from the run (the first time the loader goes to the recycling
+  -- stack instead of creating a buffer); afterwards it must be respected.
+  let mut s := { Pipeline.Sys.create U T C with limit := 1000000 }
+  let mut i := 0
+  for raw in evs do
+    let f := raw.splitOn "/"
+    let who := f.getD 0 ""
+    let kind := f.getD 1 ""
+    let u := (f.getD 2 "").toNat?.getD 0
+    let ph := f.getD 3 ""
+    let fin := f.getD 4 ""
+    if who == "L" && kind == "r" && s.lpc == .top && s.limit == 1000000 && s.nalloc ≥ 1 then s := { s with limit := s.nalloc }
+    if who == "L" then s := loaderLocals s
+    let tid := if kind == "o" then (f.getD 9 "").toNat?.getD 0 else if kind == "r" then (f.getD 6 "").toNat?.getD 0 else 0
+    let stack : List Nat := if kind == "r" then (let t := f.getD 5 "-"; if t == "-" then [] else (t.splitOn ".").filterMap String.toNat?) else []
+    -- is the record's region the one the model thread is about to execute?
+    let lbl : Option Pipeline.Label :=
+      match who, kind with
+      | "L", "i" => if Pipeline.loaderOnInbox s u then some .loader else none
+      | "L", "r" => (match s.lpc with | .top | .drain => some Pipeline.Label.loader | _ => none)
+      | "U", "i" => if (s.lane u).upc == .get then some (.unpacker u) else none
+      | "U", "o" => (match (s.lane u).upc with | .put _ => some (Pipeline.Label.unpacker u) | _ => none)
+      | "C", "o" => if s.nchunk % s.U != u then none else if ph == "f" then some (.read tid) else some .readWake
+      | "C", "r" =>
+        match stack with
+        | b :: _ => (s.cheld.find? (fun e => e.1 == tid && e.2.1 == b)).map fun e => Pipeline.Label.recycle tid b e.2.2
+        | [] => none
+      | _, _ => none
+    match lbl with
+    | none => return s!"notpath i={i} why=wrong-region-for-thread ev={raw}"
+    | some l =>
+      match Pipeline.step s l with
+      | none => return s!"notpath i={i} why=disabled ev={raw}"
+      | some s' =>
+        let lane := s'.lane u
+        if kind == "i" then
+          let m := s!"{chunkStr i0s lane.inbox}/{bstr lane.inEod}"
+          let im := s!"{f.getD 5 ""}/{f.getD 6 ""}/{f.getD 7 ""}"
+          if m != im then return s!"notpath i={i} why=inbox model={m} impl={im} ev={raw}"
+        if kind == "o" then
+          let m := s!"{chunkStr i0s lane.outbox}/{bstr lane.outEod}"
+          let im := s!"{f.getD 5 ""}/{f.getD 6 ""}/{f.getD 7 ""}"
+          if m != im then return s!"notpath i={i} why=outbox model={m} impl={im} ev={raw}"
+          if who == "C" && intOf (f.getD 8 "") != (s'.nchunk : Int) then return s!"notpath i={i} why=nchunk model={s'.nchunk} ev={raw}"
+        if kind == "r" && s'.recycling != stack then return s!"notpath i={i} why=recycling model={s'.recycling} ev={raw}"
+        let asleep := if who == "L" then s'.lwait.isSome else if who == "U" then lane.uwait.isSome else (kind == "o" && s'.reader.isSome)
+        if asleep != (fin == "c") then return s!"notpath i={i} why=wait model-asleep={asleep} ev={raw}"
+        match pipeCheck s' with
+        | some w => return s!"invariant i={i} what={w} ev={raw}"
+        | none => pure ()
+        s := s'
+        i := i + 1
+  s := loaderLocals s
+  if s.lpc != .done then return s!"notpath i={i} why=loader-not-done lpc={repr s.lpc}"
+  if s.nalloc != 0 || s.freed != s.nextBuf then return s!"invariant i={i} what=chunks-not-all-destroyed nalloc={s.nalloc}"
+  if (List.range U).any (fun u => (s.lane u).upc != .done) then return s!"notpath i={i} why=unpacker-not-done"
+  if s.returned != List.range T then return s!"invariant i={i} what=not-all-chunks-returned"
+  return s!"ok steps={i} buffers={s.nextBuf}"
+
 /-! ### dsqdata end-to-end prediction -/
 
 def hexList (s : String) : List (List UInt8) :=
@@ -232,7 +323,7 @@ def dsqrt (ws : List String) : String :=
           let h := fnvNat h d.length
           fnvBytes h d) fnv0
       let cstr := if cs.isEmpty then "-" else ",".intercalate (cs.map fun c => s!"{c.i0}:{c.n}:{c.pn}")
-      s!"ok nseq={seqs.length} chunks={cstr} digest={h.toNat} eofs={(argNat? ws "consumers").getD 1} dup=0 miss=0 bad=-1 oob=0 err=0"
+      s!"ok nseq={seqs.length} chunks={cstr} digest={h.toNat} eofs={(argNat? ws "consumers").getD 1} dup=0 miss=0 bad=-1 oob=0 err=0 lockerr=0"
   | _, _, _, _, _, _ => "bad-op"
 
 def step' (st : S) (line : String) : S × String :=
@@ -296,6 +387,12 @@ def step' (st : S) (line : String) : S × String :=
     | some items, some workers, some blocks =>
       (st, s!"ok items={items} processed={items} stops={workers} order=fifo final={blocks},0,0 removed={blocks}")
     | _, _, _ => (st, "bad-op")
+  | "dsqtrace" :: _ =>
+    match argNat? ws "U", argNat? ws "C", arg? ws "i0", arg? ws "ev" with
+    | some u, some c, some i0, some ev =>
+      let i0s := natList i0
+      (st, pipeValidate u c i0s.length i0s (if ev == "-" then [] else ev.splitOn ";"))
+    | _, _, _, _ => (st, "bad-op")
   | "thtrace" :: _ =>
     match arg? ws "ev" with
     | some ev => (st, thValidate (if ev == "-" then [] else ev.splitOn ";"))
